@@ -488,6 +488,8 @@ func buildTable(thorough bool) (*table, error) {
 	// at the end so that the indices of the older spaces do not move
 	b.chain3Groups()
 	b.lzwStateGroups()
+	// added after the second round of independent seeds
+	b.jbig2ProgramGroups()
 	return b.t, nil
 }
 
